@@ -91,7 +91,9 @@ def class_target(rng):
     return raw, decoded, pairs
 
 
-HNAMES = [b"Host", b"X-A", b"x-a", b"X-a", b"Accept", b"COOKIE", b"Cookie", b"\xc9tag", b"\xe9tag", b"a b", b"", b"Range", b"X_1"]
+HNAMES = [b"Host", b"X-A", b"x-a", b"X-a", b"Accept", b"COOKIE", b"Cookie", b"\xc9tag", b"\xe9tag", b"a b", b"", b"Range", b"X_1",
+          # names that are proper prefixes of one another (case-insensitively): the map must keep them apart
+          b"Accept-Encoding", b"accept-language", b"X", b"x-", b"Content", b"Content-Length-Hint", b"Cook", b"HOSTNAME"]
 HVALS = [b"", b"1", b"a, b", b"x:y", b"\xff\x00z", b"v  w", b"localhost:80", b"bytes=0-1"]
 BLANKS = [b"", b" ", b"  ", b"\t", b" \t"]
 
